@@ -17,7 +17,7 @@ from lib.tocoq import Some, term, val
 
 PROP = "C05"
 PROPS_FILE = "props/C05.v"
-GEN: list[str] = []
+GEN = ["gen_flatten", "gen_partition"]
 CORRESPONDENCES = [
     "location:prepare_write~model",
     "manifest-path:_gather_manifest~model",
@@ -575,14 +575,21 @@ def analyse(plan: Plan, root: str, world, md, out: Outcome):
     refs = manifest_refs(md)
     out.stored_leaves = len({r["mpath"] for r in refs})
 
-    def fail(kind, strings, what):
-        out.failures.append((cause_of(strings, plan, claimants) or kind, what))
-
     def real(loc):
         return os.path.realpath(os.path.join(root, loc))
 
-    # ---- written once, by one rank; inside the root ----------------------------------------------------------------
     writes = [e for e in world.events if e["kind"] == "write_begin"]
+    spellings = {}                     # file -> every string under which a write or a manifest entry names it
+    for s in [e["path"] for e in writes] + [r["loc"] for r in refs]:
+        spellings.setdefault(real(s), set()).add(s)
+
+    def fail(kind, strings, what):
+        involved = set(strings)
+        for s in strings:
+            involved |= spellings.get(real(s), set())
+        out.failures.append((cause_of(sorted(involved), plan, claimants) or kind, what))
+
+    # ---- written once, by one rank; inside the root ----------------------------------------------------------------
     by_file = {}
     for e in writes:
         by_file.setdefault(real(e["path"]), []).append(e)
@@ -841,7 +848,7 @@ def corpus():
     c.append(("clash-replicated-W2", {"W": 2, "env": env(False, 16), "globs": ["**"], "statefuls": [["m", clash]]}, SIG_CLASH))
     clash_two_chunked = D(("w", T("int32", [4, 2])), ("w_2", T("int32", [8])))      # "w"+"_2_0" == "w_2"+"_0"
     c.append(("clash-two-chunked", {"W": 1, "env": env(False, 16), "globs": [], "statefuls": [["m", clash_two_chunked]]}, SIG_CLASH))
-    sh = D(("s", ["S", "int32", [4], 2]), ("s_2", T("int32", [2])))
+    sh = D(("s", ["S", "int32", [4, 2], 2]), ("s_2", ["S", "int32", [4], 1]))        # "s"+"_2_0" == "s_2"+"_0"
     c.append(("clash-sharded", {"W": 1, "env": env(False), "globs": [], "statefuls": [["m", sh]]}, SIG_CLASH))
     empty_mid = D(("", D(("x", T("int32", [2])))), ("x", T("int32", [1])))
     c.append(("empty-intermediate-unbatched", {"W": 1, "env": env(False), "globs": [], "statefuls": [["m", empty_mid]]}, SIG_EMPTY))
@@ -969,7 +976,7 @@ def correspond(ctx: Ctx) -> Result:
             if expected is not None and expected not in sigs:
                 res.notes.append(f"corpus scenario {name}: the known finding {expected} did NOT reproduce (fixed?)")
             res.count("corpus", f"{name}:{'+'.join(sorted(sigs)) or ('ok' if o.committed else 'uncommitted')}")
-        n = ctx.n(110, 1100)
+        n = ctx.n(90, 1000)
         for i in range(n):
             spec = gen_spec(ctx.rng)
             if spec_has_known_trigger(spec) and ctx.rng.random() < 0.7:
